@@ -25,6 +25,17 @@ pub(super) mod sockstate {
     pub static mut BIND_OUTCOME: u8 = 0;
     pub static mut CONNECT_OUTCOME: u8 = 0;
     pub static mut SEND_OUTCOME: u8 = 0;
+    // TCP handshake observation model
+    /// what `take_error` reports: 0 = connected (None), 1 = ConnectionRefused, 2 = HostUnreachable, 3 = Other
+    pub static mut TAKE_ERROR: u8 = 0;
+    /// what `peer_addr` reports
+    pub static mut PEER_ADDR: Option<std::net::SocketAddr> = None;
+    /// what `icmp_error_info` reports
+    pub static mut ICMP_ERROR_ADDR: Option<std::net::IpAddr> = None;
+    /// `is_writable` call k returns bit k of this mask
+    pub static mut WRITABLE_MASK: u8 = 0;
+    pub static mut WRITABLE_CALLS: u32 = 0;
+    pub static mut SHUTDOWN_CALLS: u32 = 0;
 }
 
 /// Error kinds a socket call may fail with (representatives of every class the mapper distinguishes).
@@ -90,7 +101,13 @@ impl Socket for HSock {
         }
     }
     fn is_readable(&mut self, _timeout: std::time::Duration) -> IoResult<bool> { Ok(true) }
-    fn is_writable(&mut self) -> IoResult<bool> { Ok(true) }
+    fn is_writable(&mut self) -> IoResult<bool> {
+        unsafe {
+            let k = sockstate::WRITABLE_CALLS;
+            sockstate::WRITABLE_CALLS += 1;
+            Ok(k < 8 && (sockstate::WRITABLE_MASK >> k) & 1 == 1)
+        }
+    }
     fn recv_from(&mut self, buf: &mut [u8]) -> IoResult<(usize, Option<std::net::SocketAddr>)> {
         unsafe {
             match sockstate::READ_ERR {
@@ -126,10 +143,19 @@ impl Socket for HSock {
             Ok(sockstate::READ_LEN)
         }
     }
-    fn shutdown(&mut self) -> IoResult<()> { Ok(()) }
-    fn peer_addr(&mut self) -> IoResult<Option<std::net::SocketAddr>> { Ok(None) }
-    fn take_error(&mut self) -> IoResult<Option<SocketError>> { Ok(None) }
-    fn icmp_error_info(&mut self) -> IoResult<std::net::IpAddr> { Ok(std::net::IpAddr::V4(std::net::Ipv4Addr::UNSPECIFIED)) }
+    fn shutdown(&mut self) -> IoResult<()> { unsafe { sockstate::SHUTDOWN_CALLS += 1 }; Ok(()) }
+    fn peer_addr(&mut self) -> IoResult<Option<std::net::SocketAddr>> { Ok(unsafe { sockstate::PEER_ADDR }) }
+    fn take_error(&mut self) -> IoResult<Option<SocketError>> {
+        Ok(match unsafe { sockstate::TAKE_ERROR } {
+            0 => None,
+            1 => Some(SocketError::ConnectionRefused),
+            2 => Some(SocketError::HostUnreachable),
+            _ => Some(SocketError::Other(std::io::Error::from(std::io::ErrorKind::PermissionDenied))),
+        })
+    }
+    fn icmp_error_info(&mut self) -> IoResult<std::net::IpAddr> {
+        Ok(unsafe { sockstate::ICMP_ERROR_ADDR }.unwrap_or(std::net::IpAddr::V4(std::net::Ipv4Addr::UNSPECIFIED)))
+    }
 }
 
 /// Reset every observation / outcome static (between native witness-search trials).
@@ -151,5 +177,11 @@ pub(super) fn reset() {
         sockstate::BIND_OUTCOME = 0;
         sockstate::CONNECT_OUTCOME = 0;
         sockstate::SEND_OUTCOME = 0;
+        sockstate::TAKE_ERROR = 0;
+        sockstate::PEER_ADDR = None;
+        sockstate::ICMP_ERROR_ADDR = None;
+        sockstate::WRITABLE_MASK = 0;
+        sockstate::WRITABLE_CALLS = 0;
+        sockstate::SHUTDOWN_CALLS = 0;
     }
 }
